@@ -52,7 +52,12 @@ led to the strengthenings above. Third round (M41-M46, the six properties whose 
 strengthening): 4 caught at once by their own check (M41, M42, M44, M45); M43 (C18: a panic only
 under preserve_order when toml::Table is deserialized from a serde stream with an absurd size hint)
 and M46 (C17: toml_edit::ser::to_string_pretty hides empty tables) were missed and led to the `hint`
-battery items of C18 and the `esame` oracle of C17. All 46 are caught now.
+battery items of C18 and the `esame` oracle of C17. Third round for C01-C06, C09 (M47-M53): 5 caught
+at once; M52 (C06: an implicit table whose pairs all live in dotted children loses its header) and M53
+(C09: inside an inline table a four-segment dotted key extends a closed inline table stored under a
+dotted prefix) were missed: C06 gained API-flagged tables (set_dotted / set_implicit, visible shapes
+only), C09 gained an inline-table definition stream with an independent reference (keys of up to
+four segments). All 53 are caught now.
 """
 p = os.path.join(ROOT, "DESIGN.md")
 s = open(p).read()
